@@ -43,10 +43,18 @@ def run(chk):
                 "stands where the import stood, wrapped in equivalent @layer/@supports/@media; late imports flagged; without a sign the rule passes through")
     chk.trusted = csscheck.TRUSTED
     chk.assumptions = ["decode_encode: percent-decoding the placeholder of ANY byte string returns it; encoded_has_no_comment_end: the encoded "
-                       "path cannot close the comment; the byte table (isUnreserved) is extracted from the source each run; PARTIAL: the "
-                       "wrapper blocks (importRule) are tied by correspondence + oracle"]
+                       "path cannot close the comment; the byte table (isUnreserved) is extracted from the source each run; import_balanced (GE/Thm/C18Wrap.lean): "
+                       "whenever the model's importRule accepts an import (a path was read, no unexpected token in the conditions, no {} block in the media part) "
+                       "what it writes — @layer…{ @supports(…){ @media…{ /*placeholder*/ }}} — is balanced in { / }: read from any depth it never closes below "
+                       "it and ends at it, for every token tree (nested blocks and any token inside the conditions included); PARTIAL: that the wrappers are "
+                       "EQUIVALENT to the import's conditions (which prelude goes where) is tied by correspondence + oracle; a rejected import leaves the "
+                       "wrappers it had already opened unclosed (malformed input, DESIGN §13)"]
     csscheck.run_property(chk, "C18", "GE.Thm.C18", THEOREMS, 700, 12000, focus=focus, extra_cases=extra_cases,
                           nontrivial=lambda o, css, res: "@import" in css.lower())
+    failed, log = chk.prove("GE.Thm.C18Wrap", ["GE.Css.import_balanced", "GE.Css.importConds_bal", "GE.Css.importMedia_bal", "GE.Css.closes_bal",
+                                               "GE.Css.bal_inShapes"])
+    for t in failed:
+        chk.violation("proof", f"obligation {t} no longer checks", theorem=t, log=log[-3000:])
 
 
 def replay(chk, path):
